@@ -29,6 +29,7 @@ EXTRA_TARGETS = ['drv_c19x']
 
 EPOCH1 = datetime.datetime(1, 1, 1)
 US = datetime.timedelta(microseconds=1)
+SCALE = [0, 1, 2, 9, 10, 11, 12, 16, 17, 64, 100, 128, 129, 300]         # the row-count axis (= C19.SCALE)
 
 
 @contextlib.contextmanager
@@ -189,20 +190,36 @@ def _streams(ctx, drv):
     st2 = ctx.stream('csvtext-roundtrip', 'typed tables (numbers, booleans, datetimes, strings incl. commas, quotes, CR/LF/CRLF, blank interior lines, astral and '
                                           'separator characters, nulls as "" or null) -> text by the model writer (= independent RFC 4180 writer = csv.writer) -> '
                                           'REAL dataParseCSV; whenever the theorem\'s decidable hypothesis tableOK holds the real result must be the original typed '
-                                          'values (csv_text_roundtrip on the implementation); non-trivial = tableOK and >= 1 row')
+                                          'values (csv_text_roundtrip on the implementation); 0-5 rows, plus the ROW-COUNT axis 0, 1, 2, 9, 10, 11, 12, 16, 17, 64, 100, '
+                                          '128, 129, 300 rows with columns that are null in every row before a row drawn from the same axis (the column type shows '
+                                          'late); non-trivial = tableOK and >= 1 row')
     tabs = []
     for _ in range(n):
         names = rng.sample(['a', 'b', 'c d', 'x,y', 'q"', ' sp', '', 'é', 'l\nf'], rng.randint(1, 4))
         kinds = [rng.choice(['number', 'boolean', 'datetime', 'string', 'string']) for _ in names]
         tabs.append({'header': names, 'rows': [[gen_cell(rng, k) for k in kinds] for _ in range(rng.randint(0, 5))], 'nullText': rng.choice(['', 'null']),
                      'lineEnd': rng.choice(['lf', 'crlf', 'cr']), 'trailing': rng.random() < 0.4})
+    # the ROW-COUNT axis (C19.SCALE): tables of exactly 0 ... 300 rows; a column is dense (20% nulls) or LATE: null in every row before row
+    # `start` (drawn from the same axis), so that its type shows only there
+    rng2 = ctx.rng('csvtext-scale')
+    for size in SCALE:
+        for _ in range(ctx.scale(6, 20) if size < 300 else ctx.scale(2, 6)):
+            names = rng2.sample(['a', 'b', 'c d', 'x,y', 'q"', ' sp', 'é'], rng2.randint(1, 4))
+            kinds = [rng2.choice(['number', 'boolean', 'datetime', 'string', 'number']) for _ in names]
+            starts = [0 if rng2.random() < 0.5 or not size else rng2.choice([s for s in SCALE if s < size] + [size - 1]) for _ in names]
+            rows = [[None if r < start else gen_cell(rng2, k) for k, start in zip(kinds, starts)] for r in range(size)]
+            for c, (k, start) in enumerate(zip(kinds, starts)):
+                while start and rows[start][c] is None:
+                    rows[start][c] = gen_cell(rng2, k)
+            tabs.append({'header': names, 'rows': rows, 'nullText': rng2.choice(['', 'null']), 'lineEnd': rng2.choice(['lf', 'crlf', 'cr']),
+                         'trailing': rng2.random() < 0.5, 'scale': ['n%d' % size] + sorted({'first-value-row-%d' % s for s in starts if s})})
     res = drv.batch([{'op': 'csvtext_roundtrip', 'header': t['header'], 'rows': [[cell_wire(v) for v in r] for r in t['rows']], 'nullText': t['nullText'],
                       'offL': 0, 'offU': 0, 'lineEnd': t['lineEnd'], 'trailing': t['trailing']} for t in tabs])
     for t, r in zip(tabs, res):
         texts = [[t['nullText'] if v is None else val.value_string(v) for v in row] for row in t['rows']]
         case = {'header': t['header'], 'rows': [[cell_wire(v) for v in row] for row in t['rows']], 'nullText': t['nullText'], 'lineEnd': t['lineEnd'],
                 'trailing': t['trailing']}
-        st2.case(case, nontrivial=bool(r['ok']) and bool(t['rows']), tags=['tableOK:' + str(bool(r['ok'])), 'le:' + t['lineEnd']])
+        st2.case(case, nontrivial=bool(r['ok']) and bool(t['rows']), tags=['tableOK:' + str(bool(r['ok'])), 'le:' + t['lineEnd']] + t.get('scale', []))
         ctx.compare('csvtext-roundtrip', dict(case, what='writer model = RFC 4180 writer'),
                     py_write(t['header'], texts, {'lf': '\n', 'crlf': '\r\n', 'cr': '\r'}[t['lineEnd']], t['trailing']), r['text'])
         imp = impl_parse([r['text']])
